@@ -59,11 +59,11 @@ CHECKS = {
          'nesting: AND/OR/XOR = conjunction/disjunction/parity over the flattened leaves, flattening invariant under '
          'regrouping, NOT, IF, IFS first-true, SWITCH first-equal/default/#N/A, an error in a tested condition is the '
          'result, predicates exclusive and exact, ISNONTEXT, ISERROR = ISERR or ISNA, ISEVEN/ISODD parity of the integer '
-         'part; over error-free items the order is irrelevant, De Morgan, XOR of two, NOT of NOT. Tied to the code by exhaustive small tuples over a value pool and an oracle through Parser.parse.',
+         'part; over error-free items the order is irrelevant, De Morgan, XOR of two, NOT of NOT; the AND/OR/XOR/NOT/IF source terms regenerated from logic.py denote the model functions. Tied to the code by exhaustive small tuples over a value pool and an oracle through Parser.parse.',
     design='7/C12',
     note='"equal" in SWITCH is Python equality (1 = TRUE = 1.0), which the property text leaves open; text truthiness '
          '(non-empty) is modelled but not claimed by the property.',
-    technique='Coq proof (induction over argument lists / nested values) + exhaustive small-tuple correspondence'),
+    technique='Coq proof (induction over argument lists / nested values) + ast translator for AND/OR/XOR/NOT/IF (shape terms proved equal to the model) + exhaustive small-tuple correspondence'),
  'C18': dict(
     text='Coq theorems over a transcription of CHOOSE, INDEX, MATCH for arrays of any size: CHOOSE = vi or an error; INDEX '
          '= the addressed element inside, #REF! - never another element - outside, whole row/column for 0 or omitted; '
